@@ -793,6 +793,8 @@ class World:
                    by_host=vt.host, start_ord=None, outdir=rec["output"])
         self.slurm[jid] = rec
         self.note("sbatch", id=jid, batch=rec["batch"], jobs=rec["jobs"], groups=rec["groups"],
+                  results_on_disk=sorted(read_result_names(rec["output"])) if rec["output"] else [],
+                  estimates=rec["estimates"],
                   by=vt.proc.name, by_thread=vt.name, host=vt.host, sbatch_opts=rec["sbatch_opts"],
                   run_opts=rec["run_opts"], blocked_by=rec["blocked_by"], script=os.path.basename(script),
                   active_after=self.active_batches(rec["output"]), dir=rec["output"])
